@@ -47,8 +47,11 @@ Definition td_split (n ss : nat) : res (list (nat * nat)) :=
   rmap (cons (0, idx1)) (split_loop n n ss idx1).
 
 (* TensorDictBase.chunk: `if chunks < 1: raise ValueError`; split_size = -(n // -chunks); return self.split(split_size) *)
+(* a dim of size 0 (split_size == 0): `chunks` empty chunks, as torch.chunk does *)
 Definition td_chunk (n chunks : nat) : res (list (nat * nat)) :=
-  if chunks <? 1 then Raised EValue else td_split n (pyceil n chunks).
+  if chunks <? 1 then Raised EValue
+  else if Nat.eqb (pyceil n chunks) 0 then Ok (repeat (0, 0) chunks)
+  else td_split n (pyceil n chunks).
 
 (* ---------------------------------------------------------------- _split_tensordict *)
 Inductive piece :=
